@@ -13,6 +13,7 @@ ap.add_argument("--tier", default="quick")
 ap.add_argument("--no-tests", action="store_true")
 ap.add_argument("--seed", default="0")
 ap.add_argument("--show", type=int, default=3)
+ap.add_argument("--demo", help="demonstration program: must exit 0 on the clean tree and non-zero with the patch")
 a = ap.parse_args()
 wt = tempfile.mkdtemp(prefix="vmut_")
 os.rmdir(wt)
@@ -21,7 +22,17 @@ rc = 0
 try:
     subprocess.check_call(["git", "-C", "/repo", "worktree", "add", "-q", "--detach", wt, "HEAD"])
     shutil.copy("/repo/spec_classes/_version.py", os.path.join(wt, "spec_classes", "_version.py"))
+    def run_demo(tag):
+        p = subprocess.run(["/venv/bin/python", os.path.abspath(a.demo)], cwd=wt, capture_output=True, text=True,
+                           env=dict(os.environ, PYTHONPATH=wt, PYTHONDONTWRITEBYTECODE="1"), timeout=300)
+        last = (p.stderr.strip().splitlines() or p.stdout.strip().splitlines() or [""])[-1]
+        print(f"DEMO[{tag}]: rc={p.returncode} {last[:160]}")
+        return p.returncode
+    if a.demo:
+        run_demo("clean")
     subprocess.check_call(["git", "-C", wt, "apply", os.path.abspath(a.patch)])
+    if a.demo:
+        run_demo("patched")
     if not a.no_tests:
         p = subprocess.run(["/venv/bin/python", "-m", "pytest", "-q", "-p", "no:cacheprovider", "-x", "tests"],
                            cwd=wt, capture_output=True, text=True, env=dict(os.environ, PYTHONDONTWRITEBYTECODE="1"))
